@@ -91,6 +91,22 @@ class Judge(object):
 
     # ---- writes
     def write(self, idx, line, w, ans):
+        if w[0] == "co":
+            # a generator request drained on its own (gen.py: w_cobatch): the batch takes effect as a whole; the caller
+            # stops at the first state that says done, as run_iterator does not have to be used
+            if not hasattr(self, "cos"):
+                self.cos = {}
+            if w[1] == "new" and w[3] == "batch":
+                self.cos[w[2]] = w[4]
+                return
+            if w[1] == "step" and w[2] in self.cos:
+                if ans == "yield":
+                    return
+                data = self.cos.pop(w[2])
+                if ans.startswith("done "):
+                    return self.write(idx, line, ["batch", data], ans[5:])
+                return self.write(idx, line, ["batch", data], ans)
+            raise Unknown()
         if w[0] in ("init", "clear", "overwrite"):
             self.max_id = 0
             self.epis = {}
